@@ -30,6 +30,12 @@ def run(ck):
     from .c04 import x3_poll_placement
     ck.run_rule(x3_poll_placement)
     ck.run_rule(v4_no_mate_score_outside_the_terminal_test)
+    ck.run_rule(v5_threshold_scale)
+    # whether a move is legal is decided on its successor position: the successor function (C02's U rules)
+    from . import c02 as _c02
+    _ctx = {}
+    for _r in (_c02.collect_sets, _c02.u0_u4_piece_updates, _c02.u1_rook_relocation, _c02.u2_rights, _c02.u3_u5_state_fields):
+        ck.run_rule(_r, _ctx)
     # the terminal test relies on the legal move list being complete and filtered (shared rule of C01)
     from .c01 import g4_legality_filter
     ck.run_rule(g4_legality_filter)
@@ -312,3 +318,62 @@ def v4_no_mate_score_outside_the_terminal_test(ck):
                    "a mate score is produced inside the search without the guards `no legal move` (the generated legal move list is empty) and `in check`: "
                    "guards are %s" % [(show(c)[:50], tk) for c, tk in g][-3:])
     ck.ok("V4.search_mate_guard", "search functions", "", "%d mate-score construction(s) inside analyze_recursive / quiescence_search, each under the terminal guards" % n)
+
+
+
+def v5_threshold_scale(ck):
+    """A position with a legal move must score strictly inside the mate thresholds.  The heuristic terms work in pawn units (hundreds);
+    only the terminal branch of Evaluator::evaluate and the search itself deal in the threshold scale.  A term function that reaches for
+    POS_INF / NEG_INF / mate_in_ply builds a "known win" bonus on that scale and can lift an ordinary position over the threshold."""
+    prog = ck.prog
+    from callgraph import CallGraph
+    table = ck.const(EV + "EVALUATORS", "V5")
+    fns = [x["$fn"] for row in table for x in row if isinstance(x, dict) and "$fn" in x]
+    cg = CallGraph(prog)
+    seen, _e, _i = cg.reachable(fns, fn_values=[])
+    scope = sorted(n for n in seen if n.startswith(EV) or n.startswith("<" + EV))
+    n = 0
+    import json as _json
+    for name in scope:
+        b = prog.raw_body(name)
+        if b is None:
+            continue
+        n += 1
+        txt = _json.dumps(b.j["blocks"])
+        hits = [k for k in ("Evaluation::POS_INF", "Evaluation::NEG_INF", "Evaluation::mate_in_ply") if (EV + k) in txt]
+        ck.req(not hits, "V5.threshold_scale", name.split("::")[-2] if "{closure" not in name else name.split("::")[-1], b.where(),
+               "a heuristic term uses %s: a bonus on the scale of the mate threshold can make a position with legal moves score as terminal" % hits)
+    ck.floor("V5", n, 4, "functions in the heuristic terms' scope")
+    # the same on the level of numbers: with full material the heuristic sum already comes within a tenth of the threshold, so no single
+    # constant bonus / penalty of a term may reach POS_INF / 10 (the terms' constants are pawn fractions and small distances)
+    pv = ck.const(EV + "Evaluation::POS_INF", "V5")
+    pos_inf = pv.get("0") if isinstance(pv, dict) else pv
+    from terms import thaw
+    for name in scope:
+        b = prog.raw_body(name)
+        if b is None:
+            continue
+        tb = TermBuilder(prog, b)
+        big = []
+        for blk in b.blocks:
+            if blk.get("cleanup"):
+                continue
+            terms_ = [tb.rvalue(s_["rv"]) for s_ in blk["stmts"] if s_["k"] == "assign"]
+            if blk["term"]["k"] == "call":
+                terms_ += [tb.operand(a) for a in blk["term"]["args"]]
+            for t_ in terms_:
+                for x in walk(t_):
+                    v = None
+                    if x[0] == "const":
+                        raw = thaw(x[2])
+                        while isinstance(raw, dict) and "$ref" in raw and len(raw) == 1:
+                            raw = raw["$ref"]
+                        if isinstance(raw, dict) and str(raw.get("$ty", "")).endswith("eval::Evaluation") and isinstance(raw.get("0"), int):
+                            v = raw["0"]
+                    elif x[0] == "agg" and str(x[1]).endswith("eval::Evaluation::Evaluation") and len(x[2]) == 1 and isinstance(const_value(x[2][0]), int):
+                        v = const_value(x[2][0])
+                    if v is not None and isinstance(pos_inf, int) and abs(v) * 10 >= pos_inf:
+                        big.append(v)
+        ck.req(not big, "V5.bonus_magnitude", name.split("::")[-2] if "{closure" not in name else name.split("::")[-1], b.where(),
+               "a heuristic term uses a constant score of %s (mate threshold %s): with enough material on the board the sum crosses the threshold and a "
+               "position with legal moves is scored as terminal" % (sorted(set(big)), pos_inf))
